@@ -14,7 +14,7 @@ import os
 import shutil
 
 from .. import csvcodec, ioproxy, qast, sysmon
-from ..common import Scratch, from_us, quiet_stdout, rng_for
+from ..common import Scratch, from_us, quiet_stdout, rng_for, to_us
 from ..core import Violation
 from ..gen import BASE_US
 from ..histories import Profile, gen_write_op
@@ -28,7 +28,7 @@ TIMEOUT = {"quick": 900, "thorough": 3600}
 N_HIST = {"quick": 3, "thorough": 40}
 N_STRACE = {"quick": 1, "thorough": 8}
 MUTATORS = {"insert", "insert_multiple", "update", "update_all", "remove", "remove_all", "drop_measurement"}
-AFTER_EFFECT = {"flush", "fsync", "close"}
+AFTER_EFFECT = {"flush", "fsync", "close", "truncate", "replace", "rename"}
 
 
 class Injected(OSError):
@@ -166,6 +166,33 @@ def judge_after_fault(res, t, op, out, old, new, fault_label, scratch, origin="p
     except Exception:
         own_ok = False
         res.count(f"{origin}.live_object_fails_afterwards")
+        # The storage handle is unusable.  Reads that are answered from the index alone do not notice: they must
+        # then either raise as well or agree with what the file holds - never silently describe other contents.
+        try:
+            on_disk = [p.canon() for p in csvcodec.decode_bytes(t.file_bytes(), "utf-8", {})]
+        except csvcodec.DecodeError:
+            on_disk = None
+        if on_disk is not None:
+            noop = qast.to_real(("noop", "measurement"))
+            for name, call, want in (
+                ("len", lambda: len(t.db), len(on_disk)),
+                ("count", lambda: t.db.count(noop), len(on_disk)),
+                ("get_measurements", lambda: t.db.get_measurements(), sorted({c[1] for c in on_disk})),
+                ("get_timestamps", lambda: [to_us(x) for x in t.db.get_timestamps()], [c[0] for c in on_disk]),
+            ):
+                try:
+                    with quiet_stdout():
+                        got = call()
+                except Exception:
+                    res.count(f"{origin}.index_served_read_raises_too")
+                    continue
+                res.count(f"{origin}.index_served_reads_checked_against_file")
+                if got != want:
+                    res.violate(Violation(
+                        "C13", "index-served-answer-disagrees-with-file-after-io-error",
+                        dict(base, read=name, observed=repr(got)[:200], file_holds=repr(want)[:200], note="the storage handle raises, index-served reads still answer"),
+                        replay=rep, features=feats))
+                    return False
     if own_ok:
         with quiet_stdout():
             v = c06.check_index(res, t.db, {"config": cfg, "after_fault": fault_label, "op": opd, "replay": rep})
@@ -304,10 +331,13 @@ def strace_sweep(res, s, op, scratch):
     res.count("strace.ops_swept")
     acc = acceptable(old, new, op)
     opd = op if "q" not in op else dict(op, q=qast.show(op["q"]))
-    for k in range(len(calls)):
+    start = sysmon.op_start(calls)
+    ks = [k for k in range(start, len(calls)) if calls[k][0] in ("write", "fsync", "fdatasync", "ftruncate", "rename", "renameat", "renameat2", "sendfile", "copy_file_range", "openat", "close")]
+    if len(ks) > 14:
+        # long rewrites repeat (write, fsync) per row: keep the first 5, the last 7 (publish + reopen) and 2 in between
+        ks = ks[:5] + ks[len(ks) // 2: len(ks) // 2 + 2] + ks[-7:]
+    for k in ks:
         name, j = sysmon.address(calls, k)
-        if name not in ("write", "fsync", "fdatasync", "ftruncate", "rename", "renameat", "renameat2", "sendfile", "copy_file_range", "openat", "lseek", "close"):
-            continue
         errname = "ENOSPC" if name in ("write", "fsync", "ftruncate", "sendfile", "copy_file_range", "openat", "rename") else "EIO"
         with open(db, "wb") as f:
             f.write(pre)
